@@ -62,7 +62,7 @@ def run(ctx):
     from graphrules import adjacency_name_maps_only_keyed
 
     adjacency_name_maps_only_keyed(ctx, prog, flows, "R-C02-8", ("graph::query", "graph::degree", "graph::convert", "graph::subgraph", "graph::density", "graph::ensure", "graph::matrix"),
-                                   "so a query that enumerates them answers from a different node list than get_all_nodes()", floor=4)
+                                   "so a query that enumerates them answers from a different node list than get_all_nodes()", floor=2)
 
 
 # ---------------------------------------------------------------------------------------- R-C02-1
